@@ -287,8 +287,9 @@ def cases(tier):
     out.append({"kind": "dims11", "names": [], "ops": [], "hp": None})
     # long histories in which link TARGETS are deleted and re-created under the same name and linked again, with
     # by-name look-ups through held handles after every re-link (mc/explorer.soak_histories)
-    for i in range(2):
-        for hs in (None, "AB", "AAB"):
+    out.append({"kind": "soak", "names": [], "ops": [], "hp": "explicit", "which": -1})
+    for i in range(4):
+        for hs in (None, "A", "AB", "AAB"):        # "A": every operation through one long-held set of handles
             out.append({"kind": "soak", "names": [], "ops": [], "hp": hs, "which": i})
     # names that are NOT short: 255 / 256 / 300 / 5 000 characters (the last two differ only in their last character)
     NLONG = ["x" * 255, "y" * 256, "z" * 299 + "a", "z" * 299 + "b", "w" * 4999 + "1", "w" * 4999 + "2"]
@@ -551,10 +552,13 @@ def run_case(case):
         return r
     if kind == "soak":
         from mc import explorer as X
-        h = X.soak_histories()[case["which"]]
-        hp = case["hp"]
-        X.run_history("C03", {"seed": "mini", "ops": h, "single": True, "h": None if hp is None else [hp[i % len(hp)] for i in range(len(h))]},
-                      r, check_handles=True)
+        if case["which"] == -1:
+            h, hs_ = X.soak_two_handles()
+        else:
+            h = X.soak_histories()[case["which"]]
+            hp = case["hp"]
+            hs_ = None if hp is None else [hp[i % len(hp)] for i in range(len(h))]
+        X.run_history("C03", {"seed": "mini", "ops": h, "single": True, "h": hs_}, r, check_handles=True)
         if not r.violations:
             r.nontrivial = 1
         return r
